@@ -1988,3 +1988,156 @@ HDF5AppendData1f = _append_inst(1, 'DatasetInfo<1> &, const float *const', 'rank
 HDF5AppendData4f = _append_inst(4, 'DatasetInfo<4> &, const float *const', 'rank4_float')
 HDF5AppendData2a = _append_inst(2, 'DatasetInfo<2> &, const std::array<float, 2> *const', 'rank2_pair')
 HDF5AppendData3p = _append_inst(3, 'DatasetInfo<3> &, const vfps::PhaseSpace::Position *const', 'rank3_position')
+
+
+# =========================================================================== HDF5File::_makeDatasetInfo<rank,T>
+class HDF5MakeDatasetInfo(Contract):
+    """HDF5File::_makeDatasetInfo<rank,T>(name, dims, chunkdims, maxdims): the dataset is created with exactly the extents `dims`
+    (what the constructor's facts say about every dataset: HDF5FileSources) and the maximal extents `maxdims` (each at least 1), in
+    chunks whose extents are all at least 1, and the DatasetInfo handed back carries the SAME extents `dims` -- the record counter
+    _appendData starts from (C10: records == appends needs dims[0] of the info to be the dims[0] of the dataset)."""
+    name = 'vfps::HDF5File::_makeDatasetInfo'
+    tu = 'src/IO/HDF5File.cpp'
+    params = ['name', 'dims', 'chunkdims', 'maxdims']
+    tags = {'C10', 'C17'}
+    RANK = 3
+    mangled = '_ZN4vfps8HDF5File16_makeDatasetInfoILi3EfEENS0_11DatasetInfoIXT_EEENSt7__cxx1112basic_stringIcSt11char_traitsIcESaIcEEESt5arrayIyXT_EESB_SB_'
+
+    def short(self):
+        return 'HDF5File::_makeDatasetInfo<rank3_float>'
+
+    def requires(self, cx):
+        return [('rank', And(*[cx.len(cx.arg(p).name) == self.RANK for p in ('dims', 'chunkdims', 'maxdims')]))]
+
+    def assigns(self, cx):
+        return [('r', cx.arg('chunkdims').name), ('r', cx.arg('maxdims').name), ('s', 'ghost.*')]
+
+    @property
+    def calls(self):
+        U64 = parse_type_str('unsigned long long')
+        R = self.RANK
+        INT = parse_type_str('int')
+
+        def grab(ex, st, p, label):
+            if not isinstance(p, PtrV) or p.region is None:
+                raise ExtractionError(f'_makeDatasetInfo: {label} is not an array')
+            ex.safe(st, f'h5-{label}-entries', And(p.off >= 0, st.len_of(p.region) >= p.off + R), f'{label} must hold one entry per dimension')
+            ex.safe(st, f'h5-{label}-from-start', p.off == 0, f'{label} is handed over from its first entry')
+            st.arr[(f'ghost.mk.{label}', '')] = st.array(p.region, '', U64)        # snapshot of the extents at the time of the call
+            ex.logw(('r', f'ghost.mk.{label}'))
+
+        def bump(ex, st, nm):
+            st.scal[nm] = IntV((st.scal[nm].t if nm in st.scal else I(0)) + 1, INT)
+            ex.logw(('s', nm))
+
+        def space_ctor(ex, n, st, objn, argn, this_override=None):
+            real_args = [a for a in argn if a.get('kind') != 'CXXDefaultArgExpr']
+            if len(real_args) >= 3 and parse_type(real_args[0].get('type')).kind == 'int':
+                st.scal['ghost.mk.rank'] = IntV(ex.ev(real_args[0], st).t, INT)
+                ex.logw(('s', 'ghost.mk.rank'))
+                grab(ex, st, ex.ev(real_args[1], st), 'dims')
+                grab(ex, st, ex.ev(real_args[2], st), 'max')
+                bump(ex, st, 'ghost.mk.spaces')
+                return ObjRef(this_override or 'tmp:space', 'H5::DataSpace')
+            raise ExtractionError('_makeDatasetInfo: data space not built from (rank, dims, maxdims)')
+
+        def set_chunk(ex, n, st, objn, argn, this_override=None):
+            st.scal['ghost.mk.chunkrank'] = IntV(ex.ev(argn[0], st).t, INT)
+            ex.logw(('s', 'ghost.mk.chunkrank'))
+            grab(ex, st, ex.ev(argn[1], st), 'chunk')
+            bump(ex, st, 'ghost.mk.chunked')
+            return VoidV()
+
+        def create(ex, n, st, objn, argn, this_override=None):
+            names = []
+            for a in argn:
+                try:
+                    o = ex.ev_obj(a, st) if parse_type(a.get('type')).kind == 'class' else ex.ev(a, st)
+                    names.append(o.name if isinstance(o, ObjRef) else '?')
+                except ExtractionError:
+                    names.append('?')
+            st.scal['ghost.mk.created_with'] = Opaque('|'.join(names))
+            ex.logw(('s', 'ghost.mk.created_with'))
+            # created after the chunk layout was set and from the space built above
+            st.scal['ghost.mk.create_after'] = IntV((st.scal['ghost.mk.chunked'].t if 'ghost.mk.chunked' in st.scal else I(0)) + (st.scal['ghost.mk.spaces'].t if 'ghost.mk.spaces' in st.scal else I(0)), INT)
+            ex.logw(('s', 'ghost.mk.create_after'))
+            bump(ex, st, 'ghost.mk.created')
+            return ObjRef('tmp:dataset', 'H5::DataSet')
+
+        def info_ctor(ex, n, st, objn, argn, this_override=None):
+            d = ex.ev_obj(argn[2], st)
+            if not isinstance(d, ObjRef):
+                raise ExtractionError('_makeDatasetInfo: DatasetInfo not built from an extent array')
+            st.arr[('ghost.mk.info', '')] = st.array(d.name, '', U64)
+            ex.logw(('r', 'ghost.mk.info'))
+            st.scal['ghost.mk.infolen'] = IntV(st.len_of(d.name), parse_type_str('long'))
+            ex.logw(('s', 'ghost.mk.infolen'))
+            try:
+                o = ex.ev_obj(argn[0], st)
+                st.scal['ghost.mk.info_dataset'] = Opaque(o.name if isinstance(o, ObjRef) else '?')
+                ex.logw(('s', 'ghost.mk.info_dataset'))
+            except ExtractionError:
+                pass
+            return ObjRef(this_override or 'tmp:info', 'vfps::HDF5File::DatasetInfo')
+        noop = lambda ex, n, st, objn, argn, this_override=None: VoidV()
+        obj = lambda cls: (lambda ex, n, st, objn, argn, this_override=None: ObjRef(this_override or 'tmp:' + cls, 'H5::' + cls))
+        return {'ctor:H5::DataSpace': space_ctor, 'setChunk': set_chunk, 'setShuffle': noop, 'setDeflate': noop, 'createDataSet': create,
+                'ctor:H5::DSetCreatPropList': obj('DSetCreatPropList'), 'ctor:H5::DataType': obj('DataType'), 'ctor:H5::DataSet': obj('DataSet'), 'operator=': noop,
+                f'ctor:vfps::HDF5File::DatasetInfo<{R}>': info_ctor}
+
+    def ensures(self, cx):
+        R = self.RANK
+        g = lambda nm: cx.st.scal[nm].t if nm in cx.st.scal else z3.Int('missing:' + nm)
+        k = cx.g('k')
+        snap = lambda label: z3.Select(cx.st.arr[('ghost.mk.' + label, '')], k) if ('ghost.mk.' + label, '') in cx.st.arr else z3.Int('missing:' + label)
+        dims, mx, ch = cx.arg('dims').name, cx.arg('maxdims').name, cx.arg('chunkdims').name
+        od, om, oc = cx.old.sel(dims, k, '', 'u64'), cx.old.sel(mx, k, '', 'u64'), cx.old.sel(ch, k, '', 'u64')
+        atl1 = lambda v: If(v >= 1, v, I(1))
+        ink = And(k >= 0, k < R)
+        return [('created_with_the_given_extents', {'C10', 'C17'}, And(g('ghost.mk.spaces') == 1, g('ghost.mk.rank') == R, Implies(ink, snap('dims') == od))),
+                ('maximal_extents_as_given_at_least_one', {'C10', 'C17'}, Implies(ink, snap('max') == atl1(om))),
+                ('chunks_as_given_at_least_one', {'C17'}, And(g('ghost.mk.chunked') == 1, g('ghost.mk.chunkrank') == R, Implies(ink, snap('chunk') == atl1(oc)))),
+                ('one_dataset_created_after_layout_and_space', {'C10', 'C17'}, And(g('ghost.mk.created') == 1, g('ghost.mk.create_after') == 2)),
+                ('info_carries_the_extents_of_the_dataset', {'C10'}, And(g('ghost.mk.infolen') == R, Implies(ink, snap('info') == od)))]
+
+    def _inv(self, which):
+        def inv(cx):
+            R = self.RANK
+            arr = cx.arg(which).name
+            i = cx.range_index(1 if which == 'chunkdims' else 2)
+            k = cx.g('k')
+            old = cx.old.sel(arr, k, '', 'u64')
+            atl1 = If(old >= 1, old, I(1))
+            other = [cx.arr(cx.arg(a).name, '', 'u64') == cx.old.arr(cx.arg(a).name, '', 'u64') for a in ('dims',) + (('maxdims',) if which == 'chunkdims' else ())]
+            done_before = []
+            if which == 'maxdims':
+                ch = cx.arg('chunkdims').name
+                oc = cx.old.sel(ch, k, '', 'u64')
+                done_before = [Implies(And(k >= 0, k < R), cx.sel(ch, k, '', 'u64') == If(oc >= 1, oc, I(1)))]
+            return [('range', And(i >= 0, i <= R)), ('len', And(*[cx.len(cx.arg(a).name) == R for a in ('dims', 'chunkdims', 'maxdims')])),
+                    ('done', Implies(And(k >= 0, k < i), cx.sel(arr, k, '', 'u64') == atl1)),
+                    ('todo', Implies(And(k >= i, k < R), cx.sel(arr, k, '', 'u64') == old)),
+                    ('others', And(*(other + done_before)))]
+        return inv
+
+    ghosts = {'k': 'int'}
+
+    @property
+    def loops(self):
+        l1, l2 = LoopSpec(inv=self._inv('chunkdims')), LoopSpec(inv=self._inv('maxdims'))
+        for l in (l1, l2):
+            l.split = (lambda idx: (lambda cx, cxb: [('cur', cx.g('k') == cxb.range_index(idx)), ('other', Not(cx.g('k') == cxb.range_index(idx)))]))(1 if l is l1 else 2)
+        return {'dim#0': l1, 'dim#1': l2}
+
+
+def _mkinfo_inst(rank, tcode, label):
+    m = f'_ZN4vfps8HDF5File16_makeDatasetInfoILi{rank}E{tcode}EENS0_11DatasetInfoIXT_EEENSt7__cxx1112basic_stringIcSt11char_traitsIcESaIcEEESt5arrayIyXT_EESB_SB_'
+    return type(f'HDF5MakeDatasetInfo_{label}', (HDF5MakeDatasetInfo,), {'RANK': rank, 'mangled': m, '__doc__': HDF5MakeDatasetInfo.__doc__,
+                                                                      'short': lambda self, l_=label: f'HDF5File::_makeDatasetInfo<{l_}>'})
+
+
+HDF5MakeDatasetInfo3f = HDF5MakeDatasetInfo
+HDF5MakeDatasetInfo1f = _mkinfo_inst(1, 'f', 'rank1_float')
+HDF5MakeDatasetInfo1u = _mkinfo_inst(1, 'j', 'rank1_uint32')
+HDF5MakeDatasetInfo2f = _mkinfo_inst(2, 'f', 'rank2_float')
+HDF5MakeDatasetInfo4f = _mkinfo_inst(4, 'f', 'rank4_float')
